@@ -138,9 +138,15 @@ func vfNewState(t *testing.T) (*RuntimeState, func()) {
 	state.vipPushCookie = make(map[string]pushPollTransaction)
 	state.localAuthData = make(map[string]localUserData)
 	state.pendingOauth2 = make(map[string]pendingAuth2Request)
+	// initDB starts BackgroundDBCopy with the logger the state holds at that moment and that goroutine keeps it: with
+	// the testing.T-bound logger a line it writes after the test function has returned ("Cancelled after copy") makes
+	// the testing package panic the test BINARY (seen under load: VERIF_SEED=2, C05). It gets the package's own logger.
+	tlog := state.logger
+	state.logger = logger
 	if err := initDB(state); err != nil {
 		t.Fatal(err)
 	}
+	state.logger = tlog
 	if err := state.loadTemplates(); err != nil {
 		t.Fatal(err)
 	}
